@@ -5,7 +5,7 @@ CONSTANTS MaxLen
 VARIABLES cfg, h
 Conns(proxy) == IF proxy = "off"
                 THEN [peer : {"p1", "p2"}, hdr : {"none"}, src : {"ipA"}, kind : {"status", "glance"}]
-                ELSE [peer : {"p1", "p2"}, hdr : {"none", "v1", "v2", "invalid", "garbage", "v1unknown", "v2local", "v2dgram"}, src : {"ipA", "ipA2", "ipB", "ip6", "ip6c"}, kind : {"status", "glance", "login"}]
+                ELSE [peer : {"p1", "p2"}, hdr : {"none", "v1", "v2", "invalid", "garbage", "v1unknown", "v2local", "v2dgram"}, src : {"ipA", "ipA2", "ipB", "ip6", "ip6c", "ip4m", "ip4n"}, kind : {"status", "glance", "login"}]
 Init == /\ cfg \in [proxy : {"off", "v1", "v2", "both"}, limit : {0, 1, 2}, secret : {TRUE}, timeoutMs : {2000}] /\ h = <<>>
 Next == /\ Len(h) < MaxLen /\ \E c \in Conns(cfg.proxy) : h' = Append(h, c) /\ UNCHANGED cfg
 Spec == Init /\ [][Next]_<<cfg, h>>
